@@ -104,7 +104,7 @@ func main() {
 	rng := rand.New(rand.NewSource(seed*7919 + 11))
 	nRandom := 160
 	if thorough {
-		nRandom = 1500
+		nRandom = 1200
 	}
 	for i := 0; i < nRandom; i++ {
 		scs = append(scs, randomScenario(rng, fmt.Sprintf("rnd-%d-%d", seed, i)))
@@ -246,7 +246,8 @@ func mcVariants() []mcVariant {
 		// thorough: longer scripts, two ids, two values per Source, tickers, ping/pong deadline
 		{name: "ops-gws-2ids-4msgs", cfg: S, thorough: true, set: merge(twoIds, map[string]string{"MaxMsgs": "4", "SrcKinds": "<- KindsEnd"})},
 		{name: "ops-tws-2ids-4msgs", cfg: S, thorough: true, set: merge(twoIds, tws, map[string]string{"MaxMsgs": "4", "SrcKinds": "<- KindsEnd", "Alphabet": "<- AlphaTwsOps"})},
-		{name: "ops-gws-K2-cancel", cfg: S, thorough: true, set: map[string]string{"K": "2", "MCCancel": "TRUE", "MCInitFn": "TRUE"}},
+		{name: "ops-gws-K2-cancel", cfg: S, thorough: true, set: map[string]string{"K": "2", "MCCancel": "TRUE", "MCInitFn": "TRUE", "MaxMsgs": "2"}},
+		{name: "ops-gws-K2", cfg: S, thorough: true, set: map[string]string{"K": "2", "SrcKinds": "<- KindsEnd"}},
 		{name: "ops-tws-pingpong-deadline", cfg: S, thorough: true, set: merge(tws, map[string]string{"Alphabet": "<- AlphaTwsOps", "MCPP": "TRUE", "MCPO": "TRUE", "MaxTicks": "2", "MaxMsgs": "2"})},
 		{name: "ops-tws-pingpong-mpo+L", cfg: L, liveness: true, thorough: true, set: merge(tws, oneInst, map[string]string{"Alphabet": "<- AlphaTwsOps", "MCPP": "TRUE", "MCMissingPongOk": "TRUE", "MaxTicks": "2", "MaxMsgs": "2", "SrcKinds": "<- KindsEnd"})},
 		{name: "handshake-gws-4msgs", cfg: S, thorough: true, set: merge(hsGws, map[string]string{"MaxMsgs": "4", "SrcKinds": "<- KindsEnd"})},
@@ -322,7 +323,7 @@ type family struct {
 func replayFamilies(thorough bool) []family {
 	lim := 70
 	if thorough {
-		lim = 700
+		lim = 500
 	}
 	opsG := merge(twoIds, map[string]string{"PreAcked": "TRUE", "Alphabet": "<- AlphaOps", "BadStarts": "FALSE", "MCInitTimeout": "FALSE", "MaxMsgs": "3"})
 	opsT := merge(opsG, tws, map[string]string{"Alphabet": "<- AlphaTwsOps"})
